@@ -1,0 +1,13 @@
+//go:build verif
+
+package prepare
+
+func VerifRegex() map[string][][2]string {
+	return map[string][][2]string{
+		"regFlags":         {{regFlags.String(), ""}},
+		"regProfileHeader": {{regProfileHeader.String(), ""}},
+	}
+}
+
+// VerifReset empties the list of registered prepare tasks.
+func VerifReset() { Prepares = []Task{} }
